@@ -307,6 +307,10 @@ func runValues(u *vk.Unit, p *reg.Package, meta Meta, pkg string) {
 			bld := &valgen.Builder{Class: class, Variants: p.Variants, Types: p.Types}
 			g := rapid.Custom(func(t *rapid.T) reflect.Value { return bld.Build(t, rt, 0) })
 			for i := 0; i < per/2; i++ {
+				// half of the values have all their instants in the range every time format can carry, the
+				// others use the years 1..9999 (an instant that unix-nano cannot carry is recognised by
+				// what Go's UnixNano makes of it)
+				bld.TimeNanoRange = i%2 == 0
 				seed := int(vk.Seed())*100003 + i
 				var v reflect.Value
 				func() {
@@ -326,6 +330,10 @@ func runValues(u *vk.Unit, p *reg.Package, meta Meta, pkg string) {
 				if vv, ok := pv.Interface().(validator); ok {
 					if err := vv.Validate(); err != nil {
 						u.Label("built-value-fails-own-validation")
+						if n == "F0" || n == "F1" {
+							u.Label("format-matrix:" + n + ":fails-own-validation")
+							u.Set("format-matrix:"+n+":validation-error", err.Error())
+						}
 						continue
 					}
 				}
@@ -337,6 +345,9 @@ func runValues(u *vk.Unit, p *reg.Package, meta Meta, pkg string) {
 						u.Report(vk.F("encode-panic", "type %s: %v", n, err), Case{Doc: meta.Doc, Type: n, Family: "value"})
 					}
 					continue
+				}
+				if n == "F0" || n == "F1" {
+					u.Label("format-matrix:" + n + ":encoded")
 				}
 				cs := Case{Doc: meta.Doc, Type: n, Family: "value", JSON: string(b)}
 				back, perr := specgen.ParseJSON(b)
@@ -380,7 +391,7 @@ func runValues(u *vk.Unit, p *reg.Package, meta Meta, pkg string) {
 					u.Report(vk.F(cl, "type %s: a value that passes Validate() encodes as %s which the decoder refuses: %v", n, b, err), cs)
 					continue
 				}
-				if ok, where := valgen.Equal(pv.Elem(), pv2.Elem(), valgen.EqOpts{NilEqualsEmpty: true, IgnoreTime: true}); !ok {
+				if ok, where := valgen.Equal(pv.Elem(), pv2.Elem(), valgen.EqOpts{NilEqualsEmpty: true, TimeAtSomeResolution: true}); !ok {
 					if strings.Contains(where, ": float ") && valgen.FloatNear(where) {
 						u.Report(vk.F("float64-json-decode-off-by-one-ulp", "type %s: decode(encode(v)) differs from v at %s (json %s)", n, where, b), cs)
 						continue
